@@ -156,6 +156,9 @@ const fn mul_add(mut ui_a: u32, mut ui_b: u32, mut ui_c: u32, op: MulAddType) ->
                 k_z += 1;
                 exp_z &= 0x3;
             }
+            if (frac64_z & 1) != 0 {
+                bits_more = true;
+            }
             frac64_z = (frac64_z >> 1) & 0x7FFF_FFFF_FFFF_FFFF;
         } else {
             //for subtract cases
@@ -190,16 +193,18 @@ const fn mul_add(mut ui_a: u32, mut ui_b: u32, mut ui_c: u32, op: MulAddType) ->
         }
     } else {
         let mut bit_n_plus_one = false;
+        //remove hidden bits
+        frac64_z &= 0x3FFF_FFFF_FFFF_FFFF;
         let frac_z = if reg_z <= 28 {
-            //remove hidden bits
-            frac64_z &= 0x3FFF_FFFF_FFFF_FFFF;
             bit_n_plus_one = (0x0000_0002_0000_0000 & (frac64_z >> reg_z)) != 0;
             exp_z <<= 28 - reg_z;
             (frac64_z >> (reg_z + 34)) as u32 //frac32Z>>16;
         } else {
             if reg_z == 30 {
                 bit_n_plus_one = (exp_z & 0x2) != 0;
-                bits_more = (exp_z & 0x1) != 0;
+                if (exp_z & 0x1) != 0 {
+                    bits_more = true;
+                }
                 exp_z = 0;
             } else if reg_z == 29 {
                 bit_n_plus_one = (exp_z & 0x1) != 0;
@@ -210,7 +215,7 @@ const fn mul_add(mut ui_a: u32, mut ui_b: u32, mut ui_c: u32, op: MulAddType) ->
         let mut u_z = P32E2::pack_to_ui(regime, exp_z as u32, frac_z);
 
         if bit_n_plus_one {
-            if (frac64_z << (32 - reg_z)) != 0 {
+            if (frac64_z << (31 - reg_z)) != 0 {
                 bits_more = true;
             }
             u_z += (u_z & 1) | (bits_more as u32);
